@@ -240,7 +240,7 @@ pub fn run(rep: &mut Report) {
         file's name is compared with a single-pass reference expansion; non-trivial = contains '$ENV{'; distinct = (string, call site)".to_owned();
     rep.assume("variable values are '$'-free (property precondition); path separators only in the dedicated directory cases");
     rep.assume("roller patterns whose input contains '{}' or a value with braces are skipped (order of index substitution and expansion is not judged)");
-    let n = if rep.tier == "thorough" { 150_000 } else { 6_000 };
+    let n = if rep.tier == "thorough" { 150_000 } else { 20_000 };
     run_cases(rep, "string", n, one_case);
     directory_cases(rep);
     rep.require(rep.counter("locations_compared") > 1000, "fewer than 1000 locations compared");
